@@ -542,7 +542,7 @@ def parse_failing(out):
 def run(tier='quick', replay=None):
     res = core.Result(PID, tier)
     rng = random.Random(core.seed() * 7919 + 8)
-    core.ensure_theory()
+    core.ensure_theory(['FieldSec', 'TwoPort'])
     w = core.Work(PID)
     violations = []
     try:
